@@ -92,6 +92,9 @@ type SignCfg struct {
 	// broadcasts for that batch with made-up signature values - once under a name nobody
 	// registered, once under participant 0's name with a signature that is not participant 0's
 	Outsider bool
+	// LagWhole: a lagging node's poll action consumes everything outstanding (one real tick over
+	// the whole backlog) instead of one message - coarser, so that ALL nodes can lag
+	LagWhole bool
 }
 
 var junkSig = bytes.Repeat([]byte{0x42}, 64)
@@ -133,6 +136,9 @@ func (c SignCfg) String() string {
 	}
 	if c.Outsider {
 		extra += " outsider-junk"
+	}
+	if c.LagWhole {
+		extra += " whole-backlog-polls"
 	}
 	if len(c.Failing) > 0 {
 		extra += fmt.Sprintf(" failing=%v", c.Failing)
@@ -306,7 +312,11 @@ func (sw *SignWorld) Model(cfg SignCfg, check func(k *worldx.Worker, s *worldx.S
 			}
 			for _, j := range cfg.Lag {
 				if k.Offset(s, j) < len(s.Log) {
-					c, _, err := k.PollNode(s, j, 1)
+					count := 1
+					if cfg.LagWhole {
+						count = 0
+					}
+					c, _, err := k.PollNode(s, j, count)
 					if err != nil {
 						return nil, err
 					}
